@@ -53,6 +53,9 @@ def run(ctx):
     for bld in ('optim', 'debug'):
         idx = [i for i, c in enumerate(cases) if c[1] == bld]
         for i, o in zip(idx, vlib.run_lines(exes[bld], [cases[i][0] for i in idx], timeout=1200)): impl[i] = o
+    for bld in ('optim', 'debug'):
+        gi = [i for i, c in enumerate(cases) if c[1] == bld and len(c[0]) < 6000][:: (4 if not thorough else 1)]
+        vlib.guard_pass(ctx, exes[bld], [cases[i][0] for i in gi], [impl[i] for i in gi], 'key switching, %s build' % bld, {'build': bld})
     lines = sorted(set(c[0] for c in cases))
     mo = dict(zip(lines, vlib.run_model(lines, 'fast')))
     xs = [l for l in lines if len(l) < 3000][:40]
@@ -126,6 +129,7 @@ def oracle(meta, o):
 def replay(ctx, data):
     b = data.get('build', 'optim')
     exe = vlib.build_harness('drv.cpp', vlib.build_lib(b), 'spqlios-fma', b)
+    if data.get('guard'): return vlib.guard_replay(exe, data)
     o = vlib.run_lines(exe, [data['case']])[0]
     print('case:', data['case'][:300], '\nimplementation now:', o[:400], '\nrecorded:', str(data.get('impl'))[:400])
     return 0
